@@ -502,28 +502,75 @@ def clause_e(c: Check):
     n_paths = 0
     # bounds: one level with up to 3 runs of up to 4 operands; two levels with one run of up to 3 operands per
     # level and operand (two levels with longer runs is beyond reach: the number of answer sequences explodes)
-    for n_levels, bound in ((1, 3), (2, 1)):
-        # the two modes every entry point starts with (entry-point and parenthesis obligations below)
-        for mode_tag in (_ANY, _PAREN):
-            hooks = ForkHooks(ix, loop_bound=bound)
-            hooks.max_recursion = n_levels + 2
-            hooks.inline_set = set(fds) | set(nested)
-            hooks.fork_on(is_query, [('none', lambda: NONE),
-                                     ('op', lambda: Sym('operator-name', truth=True, nullness=False))])
-            it = Interp(ix, fo, hooks)
-            levels = [Sym('level%d' % i) for i in range(n_levels)]
-            paths = it.run_function(entry, {pp[0]: K(modes[mode_tag] if mode_tag else None), pp[1]: ListVal(levels)})
-            c.count(len(paths))
-            for p in paths:
-                n_paths += 1
-                _judge_infix_path(c, p, levels, mode_tag, prim, entry)
+    configs = [(1, 3), (2, 1)]
+    if c.tier == 'thorough':
+        # three levels (more than any grammar of the repository has): ~60 000 answer sequences per mode
+        configs += [(1, 4), (3, 1)]
+    def evaluate(n_levels, bound, mode_tag, rec):
+        hooks = ForkHooks(ix, loop_bound=bound)
+        hooks.max_recursion = n_levels + 2
+        hooks.inline_set = set(fds) | set(nested)
+        hooks.fork_on(is_query, [('none', lambda: NONE),
+                                 ('op', lambda: Sym('operator-name', truth=True, nullness=False))])
+        it = Interp(ix, fo, hooks)
+        levels = [Sym('level%d' % i) for i in range(n_levels)]
+        paths = it.run_function(entry, {pp[0]: K(modes[mode_tag] if mode_tag else None), pp[1]: ListVal(levels)})
+        for p in paths:
+            _judge_infix_path(rec, p, levels, mode_tag, prim, entry)
+        return len(paths)
+
+    # the two modes every entry point starts with (entry-point and parenthesis obligations below)
+    jobs = [(n_levels, bound, mode_tag) for n_levels, bound in configs for mode_tag in (_ANY, _PAREN)]
+    small = [j for j in jobs if j[0] < 3]
+    big = [j for j in jobs if j[0] >= 3]
+    for j in small:
+        n = evaluate(*j, c)
+        c.count(n)
+        n_paths += n
+    if big:
+        # the large evaluations run in forked workers (the index is inherited); their verdicts are replayed here
+        import multiprocessing
+        global _EVALUATE
+        _EVALUATE = evaluate
+        ctx = multiprocessing.get_context('fork')
+        with ctx.Pool(len(big)) as pool:
+            for n, calls in pool.map(_run_job, big):
+                c.count(n)
+                n_paths += n
+                for name, args, kwargs in calls:
+                    getattr(c, name)(*args, **kwargs)
     c.floor('C06-e', 'token-answer sequences the infix parser is evaluated on', n_paths, 200)
     _clause_e_primitive(c, pcls, prim, modes)
     _clause_e_entry_points(c, pcls, modes)
 
 
-def _judge_infix_path(c: Check, p, levels, mode_tag, prim, entry):
-    ix = c.ix
+class _Recorder:
+    """collects the verdict calls of a worker process (deduplicated) for replay on the real Check"""
+
+    def __init__(self):
+        self.calls = {}
+
+    def ok(self, *a, **kw):
+        self.calls.setdefault(('ok', a[:2]), ('ok', a, kw))
+
+    def bad(self, *a, **kw):
+        self.calls.setdefault(('bad', a[:2]), ('bad', a, kw))
+
+    def expect(self, cond, *a, **kw):
+        k = ('expect', bool(cond), a[:2])
+        self.calls.setdefault(k, ('expect', (bool(cond),) + a, kw))
+
+
+_EVALUATE = None
+
+
+def _run_job(job):
+    rec = _Recorder()
+    n = _EVALUATE(*job, rec)
+    return n, list(rec.calls.values())
+
+
+def _judge_infix_path(c, p, levels, mode_tag, prim, entry):
     labs = labels_of(p)
     key_base = 'infix/%d-levels/%s' % (len(levels), mode_tag or 'operators-on-current-line')
     where = entry.loc()
